@@ -7,8 +7,9 @@
 //   kind "xtype"        every named type (struct, union, enum, typedef) reachable in corpus 1 and the same-kind same-named
 //                       ones reachable in corpus 2,
 // one line is printed:
-//   {"e":"Call","kind":..,"a":label,"b":label,"ab":eq(a,b),"ba":eq(b,a),"ha":class,"hb":class,"chg":has_changes(compute_diff(a,b))}
-// eq is operator== on the objects (function_decl / var_decl) or on the shared pointers (types: deep equality);
+//   {"e":"Call","kind":..,"a":label,"b":label,"same":a and b are one object,"ab":eq(a,b),"ba":eq(b,a),"ha":class,"hb":class,"chg":has_changes(compute_diff(a,b)),"sab":..,"sba":..}
+// sab / sba (types only) are the structural comparisons equals(a, b, 0) / equals(b, a, 0) through the public overload of the types' kind
+// (1 / 0; -1: kinds differ); eq is operator== on the objects (function_decl / var_decl) or on the shared pointers (types: deep equality);
 // ha / hb are equality-class numbers of hash_type_or_decl()'s values, assigned here in order of first appearance;
 // the diff is computed in one diff_context per run, like abidiff does.  The last line is {"e":"Done","calls":n}.
 // The harness only records; spec/EqTrace.tla judges.
@@ -63,12 +64,12 @@ hash_class(size_t h)
 
 static int calls = 0;
 static void
-emit(const char* kind, const string& a, const string& b, bool ab, bool ba, size_t ha, size_t hb, bool chg)
+emit(const char* kind, const string& a, const string& b, bool same, bool ab, bool ba, size_t ha, size_t hb, bool chg, int sab = -1, int sba = -1)
 {
   std::cout << "{\"e\":\"Call\",\"kind\":\"" << kind << "\",\"a\":" << q(a) << ",\"b\":" << q(b)
-	    << ",\"ab\":" << (ab ? "true" : "false") << ",\"ba\":" << (ba ? "true" : "false")
+	    << ",\"same\":" << (same ? "true" : "false") << ",\"ab\":" << (ab ? "true" : "false") << ",\"ba\":" << (ba ? "true" : "false")
 	    << ",\"ha\":" << hash_class(ha) << ",\"hb\":" << hash_class(hb)
-	    << ",\"chg\":" << (chg ? "true" : "false") << "}" << std::endl;
+	    << ",\"chg\":" << (chg ? "true" : "false") << ",\"sab\":" << sab << ",\"sba\":" << sba << "}" << std::endl;
   ++calls;
 }
 
@@ -117,6 +118,26 @@ reachable_types(const corpus_sptr& c)
   for (corpus::variables::const_iterator i = c->get_variables().begin(); i != c->get_variables().end(); ++i)
     reach((*i)->get_type(), out, seen);
   return out;
+}
+
+// the structural comparison of two types of the same kind: the public equals() overload of that kind, which never
+// looks at the canonical types of its two arguments themselves (-1: different kinds / no overload: not recorded)
+static int
+structural(const type_base_sptr& a, const type_base_sptr& b)
+{
+#define TRY(T, is) if (const T* x = is(a.get())) {if (const T* y = is(b.get())) return equals(*x, *y, 0) ? 1 : 0; return -1;}
+  TRY(class_decl, is_class_type)
+  TRY(union_decl, is_union_type)
+  TRY(enum_type_decl, is_enum_type)
+  TRY(typedef_decl, is_typedef)
+  TRY(pointer_type_def, is_pointer_type)
+  TRY(reference_type_def, is_reference_type)
+  TRY(qualified_type_def, is_qualified_type)
+  TRY(array_type_def, is_array_type)
+  TRY(function_type, is_function_type)
+  TRY(type_decl, is_type_decl)
+#undef TRY
+  return -1;
 }
 
 static string
@@ -172,7 +193,7 @@ main(int argc, char* argv[])
 	  function_decl* f = *i; function_decl* g = *j;
 	  function_decl_sptr fs(f, sptr_utils::noop_deleter()), gs(g, sptr_utils::noop_deleter());     // as corpus_diff does
 	  bool chg = comparison::compute_diff(fs, gs, ctxt)->has_changes();
-	  emit("fn", f->get_name(), g->get_name(), *f == *g, *g == *f, hash_type_or_decl(f), hash_type_or_decl(g), chg);
+	  emit("fn", f->get_name(), g->get_name(), false, *f == *g, *g == *f, hash_type_or_decl(f), hash_type_or_decl(g), chg);
 	}
   for (corpus::variables::const_iterator i = c1->get_variables().begin(); i != c1->get_variables().end(); ++i)
     for (corpus::variables::const_iterator j = c2->get_variables().begin(); j != c2->get_variables().end(); ++j)
@@ -181,7 +202,7 @@ main(int argc, char* argv[])
 	  var_decl* v = *i; var_decl* w = *j;
 	  var_decl_sptr vs(v, sptr_utils::noop_deleter()), ws(w, sptr_utils::noop_deleter());
 	  bool chg = comparison::compute_diff(vs, ws, ctxt)->has_changes();
-	  emit("var", v->get_name(), w->get_name(), *v == *w, *w == *v, hash_type_or_decl(v), hash_type_or_decl(w), chg);
+	  emit("var", v->get_name(), w->get_name(), false, *v == *w, *w == *v, hash_type_or_decl(v), hash_type_or_decl(w), chg);
 	}
 
   vector<type_base_sptr> t1 = reachable_types(c1), t2 = reachable_types(c2);
@@ -190,8 +211,8 @@ main(int argc, char* argv[])
     for (size_t j = i; j < n; ++j)
       {
 	bool chg = comparison::compute_diff(t1[i], t1[j], ctxt)->has_changes();
-	emit("type", label(t1[i], i), label(t1[j], j), t1[i] == t1[j], t1[j] == t1[i],
-	     hash_type_or_decl(t1[i].get()), hash_type_or_decl(t1[j].get()), chg);
+	emit("type", label(t1[i], i), label(t1[j], j), i == j, t1[i] == t1[j], t1[j] == t1[i],
+	     hash_type_or_decl(t1[i].get()), hash_type_or_decl(t1[j].get()), chg, structural(t1[i], t1[j]), structural(t1[j], t1[i]));
       }
   for (size_t i = 0; i < t1.size(); ++i)
     {
@@ -203,8 +224,8 @@ main(int argc, char* argv[])
 	if (kind_of(t2[j]) == k && get_type_declaration(t2[j])->get_qualified_name() == name)
 	  {
 	    bool chg = comparison::compute_diff(t1[i], t2[j], ctxt)->has_changes();
-	    emit("xtype", label(t1[i], i), label(t2[j], j), t1[i] == t2[j], t2[j] == t1[i],
-		 hash_type_or_decl(t1[i].get()), hash_type_or_decl(t2[j].get()), chg);
+	    emit("xtype", label(t1[i], i), label(t2[j], j), false, t1[i] == t2[j], t2[j] == t1[i],
+		 hash_type_or_decl(t1[i].get()), hash_type_or_decl(t2[j].get()), chg, structural(t1[i], t2[j]), structural(t2[j], t1[i]));
 	  }
     }
   std::cout << "{\"e\":\"Done\",\"calls\":" << calls << "}" << std::endl;
